@@ -227,6 +227,24 @@ def run_case(case):
                                       'detail': 'is_same %s, fingerprints equal %s (other PYTHONHASHSEED %s)' % (g_other.is_same(g), g_other.fingerprint() == g.fingerprint(), env['PYTHONHASHSEED'])})
                 except Exception as e2:
                     fails.append({'clause': 'graph-pickled-by-another-process-not-loadable:%s' % type(e2).__name__, 'detail': str(e2)[:200]})
+                # ... and the processor pickled there (before it decoded anything) defines the same mapping when it is used here
+                try:
+                    gp_other = pickle.loads(base64.b64decode(o['processor_pickle']))
+                    dvs_o = [[dv.name, dv.n_opts, None if dv.bounds is None else [float(v) for v in dv.bounds]] for dv in gp_other.des_vars]
+                    if dvs_o != dvs:
+                        fails.append({'clause': 'processor-pickled-by-another-process-design-variables-differ', 'detail': '%s vs %s' % (dvs, dvs_o)})
+                    else:
+                        for x, want in zip(vecs, dec):
+                            inst_o, x2_o, act_o = gp_other.get_graph(list(x))
+                            names_o = sorted(str(n) for n in inst_o.graph.nodes)
+                            inst_l, _, _ = gp.get_graph(list(x))
+                            names_l = sorted(str(n) for n in inst_l.graph.nodes)
+                            if [float(v) for v in x2_o] != want[0] or [bool(a) for a in act_o] != want[1] or names_o != names_l:
+                                fails.append({'clause': 'processor-pickled-by-another-process-decodes-differently',
+                                              'detail': 'x=%s: here %s %s, the loaded processor %s %s nodes %s vs %s' % (x, want[0], want[1], list(x2_o), list(act_o), names_l, names_o)})
+                                break
+                except Exception as e3:
+                    fails.append({'clause': 'processor-pickled-by-another-process-raises:%s' % type(e3).__name__, 'detail': str(e3)[:300]})
                 tags.append('subprocess')
     except Exception as e:
         tags.append('processor-skipped:%s' % type(e).__name__)
